@@ -268,12 +268,16 @@ func (v *nodeView) addPart(h uint64, p *types.Part) *knownBlock {
 	return kb
 }
 
+// errNoSnapshot: the monitor did not see the node's state for that height (only possible when it polls a live
+// node that passes through a whole height between two polls): validity is then not judged.
+var errNoSnapshot = fmt.Errorf("no state snapshot")
+
 // validBlock is the property's definition of "valid extension of its own chain".
 func (m *RulesMonitor) validBlock(net *Net, v *nodeView, blk *types.Block) error {
 	h := blk.Height()
 	st := v.states[h]
 	if st == nil {
-		return fmt.Errorf("monitor has no state snapshot for height %d", h)
+		return errNoSnapshot
 	}
 	if h != st.LastBlockHeight+1 {
 		return fmt.Errorf("height %d is not last+1 (%d)", h, st.LastBlockHeight+1)
@@ -462,7 +466,9 @@ func (m *RulesMonitor) checkVoteSign(net *Net, n *Node, v *nodeView, e Ev, wit f
 	kb := v.blocks[key]
 	if kb == nil {
 		m.A.Raise("C03", tname+"-without-block", fmt.Sprintf("node %d signed a %s for %s at %d/%d without having received all parts of that block", n.Idx, tname, ShortBID(bid), e.Height, e.Round), wit())
-	} else if err := m.validBlock(net, v, kb.block); err != nil {
+	} else if err := m.validBlock(net, v, kb.block); err == errNoSnapshot {
+		m.A.Counts["validity_not_judged_no_snapshot"]++
+	} else if err != nil {
 		m.A.Raise("C03", tname+"-for-invalid-block", fmt.Sprintf("node %d signed a %s at %d/%d for a block that is not a valid extension of its chain: %v", n.Idx, tname, e.Height, e.Round, err), wit())
 	} else {
 		m.A.Counts["block_validity_checks_passed"]++
@@ -521,7 +527,9 @@ func (m *RulesMonitor) checkCommit(net *Net, n *Node, v *nodeView, e Ev, wit fun
 	} else {
 		m.A.Counts["commits_justified_by_precommits"]++
 	}
-	if err := m.validBlock(net, v, e.Block); err != nil {
+	if err := m.validBlock(net, v, e.Block); err == errNoSnapshot {
+		m.A.Counts["validity_not_judged_no_snapshot"]++
+	} else if err != nil {
 		m.A.Raise("C03", "commit-of-invalid-block", fmt.Sprintf("node %d committed block %d that is not a valid extension of its chain: %v", n.Idx, e.Height, err), wit())
 	}
 	// forget the finished height
